@@ -64,7 +64,11 @@ def rule_handover(repo, chk):
     rs = [n for n in g.nodes if n.kind == 'stmt' and 'self' in pat.stores_attr(n.ast, 'root')]
     need(rc and rs, 'C03.i: register() lacks registerChild / the root switch')
     okl = all(_under(n, 'self._lock') for n in rc + rs)
-    same = okl and len({id([a for k, a in n.ctx if k == 'with'][-1]) for n in rc + rs}) == 1
+    def section(n):
+        ws = [a for k, a in n.ctx if k == 'with']
+        return id(ws[-1]) if ws else None
+    # (a branch that registers nothing — the component made its own root — may have a section of its own)
+    same = okl and all(any(section(r_) == section(c_) and Q.reaches(c_, r_) for r_ in rs) for c_ in rc)
     chk.ob('i', reg.ref, 'the queue hand-over (registerChild) and the root switch happen in one critical section of the component\'s lock', okl and same,
            loc(reg, rc[0].ast), discr='handover-locked')
     f = repo.func(MANAGER, 'Manager._fire')
